@@ -1,0 +1,11 @@
+//go:build verif
+
+package publish
+
+import "net/url"
+
+// VerifSetBaseURL points the publisher at another API endpoint. It only exists
+// in builds with the "verif" tag (verification harness).
+func VerifSetBaseURL(cf *CloudflarePublisher, u url.URL) {
+	cf.baseURL = u
+}
